@@ -192,14 +192,16 @@ def run(ctx):
         for pos in [i for i, ch in enumerate(text) if ch == "<"][1::3]:
             xml_faults["content-cut@%d" % pos] = text[:pos].encode("utf-8")
         # non-positive or non-numeric repeat counts, including texts for which str.isdigit() and int() disagree
-        for bad in ("0", "-1", "x", "1.5", "", "-0", "+0", "--2", "+-2", "\u00b2", "\u2460", "\u00bd", "1e2", "0x2", "2.0", " ", "1 2", "\u0661x", "\u0660", "2-"):
+        for bad in ("0", "-1", "x", "1.5", "", "-0", "+0", "--2", "+-2", "\u00b2", "\u2460", "\u00bd", "1e2", "0x2", "2.0", " ", "1 2", "\u0661x", "\u0660", "2-",
+                    "9223372036854775808", "99999999999999999999"):
             xml_faults["repeat=%s" % bad] = content.replace(b"<table:table-cell ", b'<table:table-cell table:number-columns-repeated="%s" ' % bad.encode(), 1)
         # counts of blanks (text:s text:c="...") that are no numbers: a data-format error as well
         ws_content = ods_enc.content_bytes(ods_enc.encode_doc({n_: (n_ == "whitespace") for n_ in FEATURES}, [[["a   b", "c"]]]))
         if b'text:c="2"' not in ws_content:
             ctx.machinery_error("the harness encoder no longer writes a blank count of 2 for a run of three blanks")
-        for bad in ("x", "1.5", "", "--2", "\u00bd", "1e2", "0x2", " ", "2-"):
+        for bad in ("x", "1.5", "", "--2", "\u00bd", "1e2", "0x2", " ", "2-", "9223372036854775808", "99999999999999999999"):
             xml_faults["blank-count=%s" % bad] = ws_content.replace(b'text:c="2"', ('text:c="%s"' % bad).encode("utf-8"), 1)
+        xml_faults["nested-spans=3000"] = ws_content.replace(b"<text:p>", b"<text:p>" + b"<text:span>" * 3000, 1).replace(b"</text:p>", b"</text:span>" * 3000 + b"</text:p>", 1)
         # content.xml declaring an encoding the XML parser does not know, cannot use, or that is no text encoding: either it is
         # read correctly or it is a data-format error
         body = text.split("?>", 1)[1] if text.startswith("<?xml") else text
